@@ -26,7 +26,7 @@ stream, and the driver checks it for the Lean parser with `checkOracle` (proved 
   it is a property of the stream text and of the parser.  They are therefore named `…_partial`:
   `framing_split_independent_partial`, `framing_delivers_exactly_partial`,
   `framing_bytes_split_independent_stateful_partial`, `framing_bytes_split_independent_partial`
-  `reconnect_framing_split_independent_partial`
+  `reconnect_framing_split_independent_partial`, `framing_restart_split_independent_partial`
   (also partial for other reasons: `utf8_perchunk_eq_iff_boundaries_partial`, `leanParser_complete_at_boundary_partial`).
   Missing: valid streams that do NOT satisfy `PrefixOracle` — white space in front of the header (white space after
   the closing tag IS covered since repo commit 109544b, see `afterCloseText` below; before, the property was false
@@ -158,6 +158,43 @@ theorem reconnect_framing_split_independent_partial (P : Parser E) (items : List
     events (runOps P (runOps P binit pre).1 (Op.connect :: chunks.map Op.feed)).2 = events (evsOf items) := by
   rw [connection_events_depend_only_on_own_bytes]
   exact (framing_bytes_split_independent_partial P items hP chunks cps hvalid htext).2
+
+/-! ### Several streams on one connection (stream restart, e.g. after SASL) -/
+
+/-- **Split independence with stream restarts.**  A connection may carry several streams one after the other: a new
+`<stream:stream …>` header (other attributes, other namespace declarations) without a closing tag before it.  Every
+matched header REPLACES the cached open tag (`tagFrom`), so what follows header n is wrapped in header n only.
+For every list of sessions (header + items each), each received in its own reads cut ANYWHERE (`sc.2` = the reads of
+session `sc.1`), the events are exactly the events of all the items in order — the same as when every session arrives
+in one read.  Hypothesis: `SessionsOracle` = `PrefixOracleFrom` per session with the tag cached at its start (partial
+for the same reason as the other framing theorems).  A restart header always starts a read of its own (it answers a
+round trip: the peer sends it only after our own new header); a header in the MIDDLE of a read is not recognised by
+the code (the expression is anchored) — that case is exercised by correspondence only. -/
+theorem framing_restart_split_independent_partial (P : Parser E)
+    (sessions : List (List (Item E) × List (List Char)))
+    (hc : ∀ sc ∈ sessions, sc.2.flatten = textOf sc.1)
+    (ho : SessionsOracle P [] (sessions.map (·.1))) :
+    events (run P init (sessions.map (·.2)).flatten).2 = events (evsOf (sessions.map (·.1)).flatten)
+    ∧ events (run P init (sessions.map (·.2)).flatten).2
+      = events (run P init ((sessions.map fun sc => [textOf sc.1]).flatten)).2 := by
+  have h1 := run_sessions P sessions [] hc ho
+  have h2 := run_sessions P (sessions.map fun sc => (sc.1, [textOf sc.1])) []
+    (by intro sc hsc; simp only [List.mem_map] at hsc; obtain ⟨x, _, rfl⟩ := hsc; simp)
+    (by simpa [List.map_map, Function.comp_def] using ho)
+  simp only [List.map_map, Function.comp_def] at h2
+  have h1' : events (run P init (sessions.map (·.2)).flatten).2 = events (evsOf (sessions.map (·.1)).flatten) := h1
+  have h2' : events (run P init ((sessions.map fun sc => [textOf sc.1]).flatten)).2
+      = events (evsOf (sessions.map (·.1)).flatten) := h2
+  exact ⟨h1', h1'.trans h2'.symm⟩
+
+/-- non-vacuity: two sessions on the toy parser, the second one cut inside its header and inside its stanza -/
+example : SessionsOracle toyP [] [[toyHdr, toyStanza "<a/>" "a"], [toyHdr, toyStanza "<b>x</b>" "b:x", toyClose]] :=
+  ⟨checkOracleFrom_sound _ _ _ (by decide +kernel), checkOracleFrom_sound _ _ _ (by decide +kernel), trivial⟩
+
+example : events (run toyP init ["<stream:stream><a/>".toList, "<stream:str".toList, "eam><b>".toList,
+      "x</b></stream:stream>".toList]).2
+    = [.streamOpen "stream".toList, .stanza "a".toList, .streamOpen "stream".toList, .stanza "b:x".toList, .streamClose] := by
+  decide +kernel
 
 /-! ### Bytes after the closing tag (defect until repo commit 109544b, now part of the covered language) -/
 
